@@ -11,6 +11,7 @@ import (
 	"path/filepath"
 	"runtime"
 	"strings"
+	"sync"
 	"syscall"
 	"time"
 
@@ -180,6 +181,12 @@ func runOpenCase(o *Oracle, valid string, c *OpenCase, rep *Report) {
 		defer runtime.GOMAXPROCS(old)
 		rep.Count(fmt.Sprintf("gomaxprocs=%d", c.Procs))
 	}
+	if c.D.Kind == "bolt" && c.D.Bucket && c.D.V != "good" {
+		if keys, err := dumpKeys(valid); err == nil && strings.HasSuffix(keys, " n=0") {
+			rep.Count("no-value-to-damage")
+			return // the valid file holds no bitmap at all: this damage does not exist for it
+		}
+	}
 	want := o.Ask(fmt.Sprintf("fs open %s preload=%v", c.D.String(), c.Preload))
 	rep.Eval(fmt.Sprintf("%v", *c), c.D.Kind != "bolt" || !c.D.Bucket || c.D.S != "good" || c.D.I != "good" || c.D.V != "good")
 	rep.Count("expect=" + want)
@@ -274,6 +281,10 @@ func runC15(rep *Report, r *Rng, tier string) {
 	}
 	for f := 0; f < nfiles; f++ {
 		d := genDataSpecN(r, 20+r.Intn(200), false)
+		for try := 0; try < 20 && statsOf(d.Materialize()).pairs == 0; try++ {
+			// the damage grid needs at least one stored bitmap to damage: a dataset whose rows are all empty has none
+			d = genDataSpecN(r, 20+r.Intn(200), false)
+		}
 		valid := scratch(fmt.Sprintf("valid-%d.updog", f))
 		os.Remove(valid)
 		if _, err := buildIndexFile(Pick(r, writers), d.Materialize(), valid); err != nil {
@@ -386,6 +397,82 @@ func runC15(rep *Report, r *Rng, tier string) {
 				}
 			}
 		}
+	}
+	// the file is released by Close (and by a failed open) even when the process has started a child in the meantime
+	// (a descriptor without close-on-exec would live on in the child, with its lock), and Close does not return before
+	// the file is released when a query is still running on the index
+	{
+		valid := scratch("valid-release.updog")
+		os.Remove(valid)
+		if _, err := buildIndexFile("mem", genDataSpecN(r, 40, false).Materialize(), valid); err != nil {
+			infra("build: %v", err)
+		}
+		for _, mode := range []string{"close", "failed-open"} {
+			path := scratch("release-" + mode + ".updog")
+			if mode == "close" {
+				copyFile(valid, path)
+			} else {
+				makeDamaged(valid, path, Damage{Kind: "bolt", Bucket: true, S: "missing", I: "good", V: "good"})
+			}
+			idx, _, err := openIdx(path, false, -1)
+			child := exec.Command("sleep", "4")
+			if cerr := child.Start(); cerr == nil {
+				if idx != nil {
+					idx.Close()
+				}
+				s := releasedProbe(path)
+				child.Process.Kill()
+				child.Wait()
+				rep.Eval("release-with-child-"+mode, true)
+				rep.Count("release-with-child-process")
+				if s != "released" && (mode == "close" || err != nil) {
+					rep.Violate(Violation{Kind: "history", Signature: "C15:not-released-after-" + map[string]string{"close": "close", "failed-open": "failed-open"}[mode], What: "the process started a child while the index file was open (" + mode + "); afterwards the file is still locked", Expected: "released", Actual: s, Case: map[string]any{"scenario": "child process started while open", "mode": mode}})
+				}
+			} else if idx != nil {
+				idx.Close()
+			}
+			os.Remove(path)
+		}
+		// Close while a query is in flight (held inside a caller-supplied cache): when Close has returned, the file is free
+		path := scratch("release-inflight.updog")
+		copyFile(valid, path)
+		gate := &gateCache{hold: make(chan struct{}), entered: make(chan struct{}, 1)}
+		idx, err := updog.OpenIndex(path, updog.WithCache(gate))
+		if err == nil {
+			rows := genDataSpecN(r, 40, false).Materialize()
+			_ = rows
+			sch := idx.GetSchema()
+			if len(sch.Columns) > 0 && len(sch.Columns[0].Values) > 0 {
+				q := &updog.Query{Expr: &updog.ExprEqual{Column: sch.Columns[0].Name, Value: sch.Columns[0].Values[0].Value}}
+				qdone := make(chan struct{})
+				go func() { defer close(qdone); safeExecute(idx, q) }()
+				select {
+				case <-gate.entered:
+				case <-time.After(5 * time.Second):
+				}
+				closed := make(chan struct{})
+				go func() { defer close(closed); idx.Close() }()
+				time.Sleep(200 * time.Millisecond)
+				close(gate.hold) // the query may finish now
+				res := "ok"
+				select {
+				case <-closed:
+				case <-time.After(20 * time.Second * watchdogScale):
+					res = "hang"
+				}
+				<-qdone
+				s := releasedProbe(path)
+				rep.Eval("release-inflight", true)
+				rep.Count("close-with-query-in-flight")
+				if res != "ok" || s != "released" {
+					rep.Violate(Violation{Kind: "schedule", Signature: "C15:not-released-after-close", What: "Close was called while a query was running on the index; Close returned (" + res + ") and the file is " + s, Expected: "released", Actual: s, Case: map[string]any{"scenario": "close with a query in flight"}})
+				}
+			} else {
+				idx.Close()
+			}
+		}
+		os.Remove(path)
+		os.Remove(valid)
 	}
 	// options whose argument is nil cannot fail: the open succeeds, Close releases the file
 	{
@@ -636,13 +723,15 @@ func runC06(rep *Report, r *Rng, tier string) {
 			for _, sig := range []syscall.Signal{syscall.SIGTERM, syscall.SIGINT} {
 				terminatedCreate(rep, "C06", big, sig)
 			}
+			terminatedCreateX(rep, "C06", big, syscall.SIGINT, true)
+			terminatedCreateX(rep, "C06", big, 0, false)
 		}
 	}()
 	rep.Rule = "every transaction-commit point (verifPoint hook) of Flush/WriteToBoltDatabase of the in-memory writer and of AddRow+Flush of the big writer, incl. the state before the first commit, for datasets on both sides of 1000/2000 distinct values and 1000/2000 rows: the output file is copied at each point; each copy must be rejected by OpenIndex or answer a probe battery (random queries + one OR-over-all-values group-by probe per column + schema) exactly like the complete file; both getters; non-trivial = strict prefix; distinct by (dataset, writer, point, getter)"
 	o := StartOracle()
 	defer o.Close()
 	type shape struct{ rows, vals int }
-	shapes := []shape{{30, 5}, {1200, 40}, {2500, 2300}, {1001, 1001}}
+	shapes := []shape{{30, 5}, {1200, 40}, {2500, 2300}, {1001, 1001}, {6500, 6200}}
 	if tier == "thorough" {
 		shapes = append(shapes, shape{999, 999}, shape{1000, 1000}, shape{3001, 3100}, shape{2000, 1999}, shape{5000, 4200}, shape{10, 1})
 	}
@@ -994,6 +1083,10 @@ func runC16(rep *Report, r *Rng, tier string) {
 		}
 	}
 	concurrentCreators(rep, "C16", 150)
+	for _, big := range []bool{false, true} {
+		terminatedCreateX(rep, "C16", big, syscall.SIGINT, true)
+		terminatedCreateX(rep, "C16", big, syscall.SIGTERM, true)
+	}
 	// a competitor creates the output path WHILE Flush is running: whenever the path does not exist at a commit point,
 	// another program may create it; Flush must then fail or leave that file intact (the writer must own the path
 	// from the start, O_CREAT|O_EXCL, not check-then-rename)
@@ -1125,3 +1218,22 @@ func init() {
 		runClobberCase(valid, csvPath, &c, rep)
 	}
 }
+
+// gateCache is a caller-supplied cache whose first Get blocks until released: it holds one query in flight
+type gateCache struct {
+	hold    chan struct{}
+	entered chan struct{}
+	once    sync.Once
+}
+
+func (g *gateCache) Get(key uint64) (*roaring.Bitmap, bool) {
+	g.once.Do(func() {
+		select {
+		case g.entered <- struct{}{}:
+		default:
+		}
+		<-g.hold
+	})
+	return nil, false
+}
+func (g *gateCache) Put(key uint64, bm *roaring.Bitmap) {}
